@@ -63,6 +63,33 @@ SEEDS = {
         "edit_lines": [1, 6, 9, 24, 32],
         "comment": "# note", "noop": "pass", "import": "from %s import %s", "lib2": "lib2_moved.py",
     },
+    # a dotted plain import (rewritten textually by the python pre-processing) next to identifiers that embed the dotted name as a substring
+    "py_dotted_import": {
+        "lang": "python", "main": "main.py", "lib": "lib_moved.py",
+        "text": [
+            "import os.path",                # 1
+            "",
+            "def load():",                   # 3
+            "    t = source()",
+            "    return t",
+            "",
+            "def handler():",                # 7
+            "    videos = load()",
+            "    sink(videos)",
+            "    target = videos.path",
+            "    sink(target)",
+            "    ros = os.path.sep",
+            "    sink(ros)",
+            "    return ros",
+            "",
+            "handler()",                     # 16
+        ],
+        "defs": [{"name": "load", "first": 3, "last": 5, "movable": True}, {"name": "handler", "first": 7, "last": 14, "movable": False}],
+        "names": ["load", "handler", "videos", "ros"],
+        "scope": {"videos": [7, 14], "ros": [7, 14]},
+        "edit_lines": [3, 10, 16],
+        "comment": "# note", "noop": "pass", "import": "from %s import %s", "lib2": "lib2_moved.py",
+    },
     "js_flow_calls": {
         "lang": "javascript", "main": "main.js", "lib": "lib_moved.js",
         "text": [
